@@ -229,6 +229,24 @@ CLAIMS = {
 
 NOT_YET = 'contracts for this property are not built yet'
 
+# bounded stand-ins (labelled `bounded` in the evidence, never added to `discharged`) and other additions per property
+EXTRA_NOTES = {
+    'C03': 'Bounded stand-in next to the loop contracts: the fragmenter completely unrolled at fragment size 64 for payloads up to three fragments '
+           '(decides the same clauses when the loops are rewritten).',
+    'C04': 'Bounded stand-ins: chunk-independence checked directly on a parser made by its real __init__ for 2-3 symbolic reads of up to 8 bytes '
+           '(loops unrolled, compared with the splitter); message transports (quart / aiohttp / websockets) for three messages with abstract sockets.',
+    'C05': 'Bounded stand-in for queue operations without a contract of their own (frame condition): none exists on the unchanged tree. '
+           'The waiting branch of QueuePeekable.peek is verified against the assumed asyncio.Queue internals.',
+    'C06': 'Bounded stand-in: "never parked waiting for credit while granted credit is unused" (safety form of the liveness half) for the '
+           'observable-backed publishers, driven through their public operations with loops unrolled.',
+    'C13': 'The allocator is additionally proved by complete unrolling on the reduced id spaces 3, 7, 15 (no loop contract needed).',
+    'C14': 'Bounded stand-in: lease histories through send_request / handle_lease only (up to 4 requests, queue sizes 0/1/3, symbolic grant and clock), '
+           'independent of the container that retains requests.',
+    'C20': 'Bounded stand-in for the lost-wake-up clause as under C06.',
+}
+GENERAL = (' Thorough tier additionally runs a CPython differential of the engine (real functions on concrete inputs, both codec back ends) and '
+           'mutation canaries (source mutants that must turn this check red); both guard the trusted base and the contracts\' sensitivity and never decide the property.')
+
 
 def main():
     props = [json.loads(l)['id'] for l in open(os.path.join(ROOT, 'properties.jsonl'))]
@@ -247,7 +265,7 @@ def main():
             replay_cmd_template='cd /repo && PYTHONPATH=/verif:/repo /venv/bin/python /verif/pyvc/replay_runner.py {path}',
             engine='pyvc',
             level_claimed=dict(category=c['level'], text=c['text'], design_ref='DESIGN.md ' + c['design']),
-            level_note=c['note'],
+            level_note=c['note'] + ((' ' + EXTRA_NOTES[p]) if p in EXTRA_NOTES else '') + GENERAL,
             technique=c['technique']))
     m = dict(
         version=1,
